@@ -136,6 +136,7 @@ func solveOne(o *Obligation, idx int, dir string, cfg SolverCfg) {
 		o.Output = err.Error()
 		return
 	}
+	o.File = file
 	if !cfg.KeepSMT {
 		defer os.Remove(file)
 	}
